@@ -1,7 +1,7 @@
 """Shared machinery of ./check (see DESIGN.md section 2.2)."""
 import argparse, glob, hashlib, json, os, re, shutil, subprocess, sys, time
 
-ROOT = "/verif"
+ROOT = os.path.dirname(os.path.dirname(os.path.abspath(__file__)))   # the framework copy this file belongs to (a scratch clone runs on its own files)
 REPO = os.environ.get("VERIF_REPO", "/repo")
 GOENV = dict(os.environ, GOFLAGS="-mod=mod", GOPROXY="off", GOSUMDB="off", GOTOOLCHAIN="local",
              CGO_ENABLED=os.environ.get("CGO_ENABLED", "0"))
